@@ -24,6 +24,7 @@ LEVEL_TEXT = ('Bounded-exhaustive: the label-kind decision is checked on its who
               'independent Patricia-trie model that follows dict.cpp.')
 LEVEL_NOTE = 'trusted: mc/ref/hashmap.py (label rule pinned on the tie-break boundaries, on the repo\'s pinned dictionary hash and on the 170 labels of the main-net block)'
 TECHNIQUE = 'exhaustive enumeration of the label-kind decision domain, key sets, label-kind assignments and prunings against a reference trie model'
+RULE += " Augmented dictionaries come in two forms: 8-bit extras, and extras that OWN a reference (leaf: extra's reference before the value's; fork: left, right, then the extra's), for all label-kind assignments and all prunings."
 ASSUMPTIONS = ['tries with more than 7 edges: label-kind assignments bounded to <= 2 deviations from canonical']
 NOT_ASSERTED = ['rejection of malformed dictionaries']
 
